@@ -5,6 +5,7 @@ C06.R  every connection method that pops the pending proto-subroutine reaches th
 C06.I  Subroutine.instantiate substitutes every Template operand of every
        instruction, rebuilds through the instruction's own from_operands and sets the app id
 C06.T  from_operands that admit a Template also convert a raw int at the same position
+C06.A  the assembler passes replace an operand only under a type test that excludes Template
 """
 from __future__ import annotations
 
@@ -26,6 +27,7 @@ EXPLANATION = (
     "exit, replaces Template operands by the supplied values, rebuilds with instr.from_operands and stores the app id. Over "
     "lang/instr: a from_operands that admits Template at a position converts an int at that position to an Immediate."
     ' C06.S: compile() and the flush path convert the proto-subroutine through the same single builder call, which assembles and then applies the configured transpiler.'
+    ' C06.A: the assembler passes replace an operand of a command only under an isinstance fact that excludes Template, so template operands reach instantiate().'
 )
 LEVEL_TEXT = (
     "Static analysis, partial: the connection-state clause (compile leaves the builder as flush does) is decided on all paths of all "
@@ -102,8 +104,72 @@ def check_same_pipeline(ctx):
                   f"Builder.{meth} does not return assemble_subroutine(<proto>) passed through the connection's transpiler when one is configured", b.loc(f))
 
 
+def _branches(e, facts=()):
+    """(facts, value) for every arm of a conditional expression"""
+    if isinstance(e, ast.IfExp):
+        return _branches(e.body, facts + ((e.test, True),)) + _branches(e.orelse, facts + ((e.test, False),))
+    return [(facts, e)]
+
+
+def _typed_as_non_template(facts, var) -> bool:
+    for t, pol in facts:
+        if pol and isinstance(t, ast.Call) and dotted(t.func) == "isinstance" and len(t.args) == 2 and A.norm(t.args[0]) == var:
+            classes = [A.norm(x) for x in (t.args[1].elts if isinstance(t.args[1], ast.Tuple) else [t.args[1]])]
+            if classes and not any("Template" in c or c == "object" for c in classes):
+                return True
+    return False
+
+
+def check_templates_survive_assembly(ctx):
+    """C06.A — a template operand has to reach Subroutine.instantiate: the assembler passes (label resolution, constant lifting)
+    may replace an operand of a command only where a type test says it is something else than a Template."""
+    repo = ctx.repo
+    m = repo.module("netqasm.lang.parsing.text")
+    n_sites = 0
+    for fname, fn in sorted(m.functions.items()):
+        for st in A.body_nodes(fn):
+            if not (isinstance(st, ast.Assign) and isinstance(st.targets[0], ast.Subscript) and isinstance(st.targets[0].value, ast.Attribute) and st.targets[0].value.attr == "operands"):
+                continue
+            # the loop variable holding the operand being replaced
+            elem = None
+            for lp in ast.walk(fn):
+                if isinstance(lp, ast.For) and any(x is st for x in ast.walk(lp)):
+                    it = lp.iter
+                    over = it.args[0] if isinstance(it, ast.Call) and dotted(it.func) == "enumerate" and it.args else it
+                    if isinstance(over, ast.Attribute) and over.attr == "operands":
+                        tg = lp.target.elts[-1] if isinstance(lp.target, ast.Tuple) else lp.target
+                        if isinstance(tg, ast.Name):
+                            elem = tg.id
+            if elem is None:
+                ctx.error("C06.A", f"{fname}: cannot identify the operand replaced by `{src(st)}`")
+                continue
+            n_sites += 1
+            ctx.fn(f"text.{fname}")
+            v = A.expand(st.value, A.single_defs(fn))
+            site_facts = tuple(G.path_conditions(fn, st))
+            bad = None
+            callee = m.functions.get(A.call_name(v)) if isinstance(v, ast.Call) else None
+            if callee is not None and any(isinstance(a, ast.Name) and a.id == elem for a in v.args):
+                pos = [k for k, a in enumerate(v.args) if isinstance(a, ast.Name) and a.id == elem][0]
+                p = A.param_names(callee)[pos]
+                ctx.fn(f"text.{callee.name}")
+                for r in A.returns(callee):
+                    for facts, val in _branches(r.value, tuple(G.path_conditions(callee, r))):
+                        if A.norm(val) != p and not _typed_as_non_template(facts, p) and not _typed_as_non_template(site_facts, elem):
+                            bad = f"{callee.name} can return `{src(val)[:60]}` for an operand that was not tested to be a label / constant"
+            else:
+                for facts, val in _branches(v, site_facts):
+                    if A.norm(val) != elem and not _typed_as_non_template(facts, elem):
+                        bad = f"the operand is replaced by `{src(val)[:60]}` without a type test"
+            ctx.check("C06.A", f"{fname}:operand-replaced-only-under-a-type-test-that-excludes-templates", bad is None,
+                      f"{fname}: {bad}; a Template operand named like a label (or otherwise matching) is consumed by the assembler, so instantiate() has nothing left to fill in",
+                      repo.loc(m, st), sample={"function": fname, "site": src(st)})
+    ctx.anchor("C06.A", "assembler sites that replace an operand of a command", n_sites, 2)
+
+
 def run(ctx):
     check_same_pipeline(ctx)
+    check_templates_survive_assembly(ctx)
     repo = ctx.repo
     m = repo.module(CONN)
     n_pop = 0
@@ -250,6 +316,13 @@ def run(ctx):
 CN = "netqasm/sdk/connection.py"
 SU = "netqasm/lang/subroutine.py"
 SEEDS = [
+    dict(id="c06-label-lookup-untyped", file="netqasm/lang/parsing/text.py", expect="C06.A", construct="_update_labels_in_command",
+         old="    if isinstance(operand, Label):\n        for label, value in labels.items():\n            if operand.name == label:\n                return value\n    return operand\n",
+         new="    return labels.get(getattr(operand, \"name\", None), operand)\n"),
+    dict(id="c06-label-lookup-admits-template", file="netqasm/lang/parsing/text.py", expect="C06.A", construct="_update_labels_in_command",
+         old="    if isinstance(operand, Label):\n        for label, value in labels.items():", new="    if isinstance(operand, (Label, Template)):\n        for label, value in labels.items():"),
+    dict(id="c06-constant-lift-untyped", file="netqasm/lang/parsing/text.py", expect="C06.A", construct="_replace_constants",
+         old="                isinstance(operand, int)\n                and (command.instruction, j) not in _REPLACE_CONSTANTS_EXCEPTION", new="                not isinstance(operand, (Register, ArrayEntry, ArraySlice, Label))\n                and (command.instruction, j) not in _REPLACE_CONSTANTS_EXCEPTION"),
     dict(id="c06-compile-assembles-only", file="netqasm/sdk/connection.py", expect="C06.S", construct="compile-and-flush",
          old="        subroutine = self._builder.subrt_compile_subroutine(protosubroutine)\n\n        # The arrays and registers", new="        subroutine = assemble_subroutine(protosubroutine)\n\n        # The arrays and registers"),
     dict(id="c06-builder-skips-transpiler", file="netqasm/sdk/builder.py", expect="C06.S", construct="assemble-then-transpile",
@@ -264,4 +337,8 @@ SEEDS = [
     dict(id="c06-instantiate-appid", file=SU, expect="C06.I", construct="app-id", old="        self.instructions = instrs\n        self._app_id = app_id", new="        self.instructions = instrs"),
     dict(id="c06-template-int", file="netqasm/lang/instr/core.py", expect="C06.T", construct="imm1", old="        if isinstance(imm1, int):\n            imm1 = Immediate(value=imm1)\n        elif isinstance(imm1, Immediate):", new="        if isinstance(imm1, Immediate):"),
 ]
-BENIGN = []
+BENIGN = [
+    dict(id="c06-benign-label-lookup-typed-get", file="netqasm/lang/parsing/text.py",
+         old="    if isinstance(operand, Label):\n        for label, value in labels.items():\n            if operand.name == label:\n                return value\n    return operand\n",
+         new="    return labels.get(operand.name, operand) if isinstance(operand, Label) else operand\n"),
+]
